@@ -137,6 +137,20 @@ impl St {
                                             if front { "next()" } else { "next_back()" }, gid, exp
                                         ));
                                     }
+                                    if exp.is_none() {
+                                        // a used-up drain stays used up, whichever end is asked, however often
+                                        for k in 0..4 {
+                                            let again = if (k % 2 == 0) == front { d.next_back() } else { d.next() };
+                                            if let Some(t) = again {
+                                                let id = t.raw_id();
+                                                y.push(t);
+                                                return Err(format!("a drain that had returned None yielded element id {id} when it was asked again (call {k}, other end first)"));
+                                            }
+                                        }
+                                        if d.len() != 0 || d.size_hint() != (0, Some(0)) {
+                                            return Err(format!("a used-up drain reports len {} / size_hint {:?}", d.len(), d.size_hint()));
+                                        }
+                                    }
                                     if lo < hi {
                                         if front {
                                             lo += 1
